@@ -135,6 +135,30 @@ func world(run *vh.Run, label string, wi, nBlocks int) {
 			}
 		}
 	}
+	// special accounts sitting at the addresses a known key will create contracts at (CREATE(creator, 0..7)): a creation
+	// transaction (or CREATE) whose target address is a protected account must fail as a whole and leave it alone
+	creator := vh.NewAcct(r)
+	accts = append(accts, vh.GenAccount{Addr: creator.Addr, Coins: vh.NativeCoins(1000)})
+	for n := uint64(0); n < 8; n++ {
+		at := crypto.CreateAddress(creator.Addr, n)
+		switch n % 4 {
+		case 0: // unfunded delayed vesting account that never expires during the history
+			accts = append(accts, vh.GenAccount{Addr: at, Kind: "delayed", VestStart: 946000000, VestEnd: 4102444800,
+				OrigVesting: sdk.NewCoins(sdk.NewCoin(vh.Denom, sdkmath.NewIntFromBigInt(vh.Ether(10))))})
+			specials = append(specials, special{addr: at, desc: "vesting:delayed:funded=false"})
+		case 1: // funded continuous vesting account, unexpired
+			ov := sdk.NewCoins(sdk.NewCoin(vh.Denom, sdkmath.NewIntFromBigInt(vh.Ether(10))))
+			accts = append(accts, vh.GenAccount{Addr: at, Kind: "continuous", VestStart: 946000000, VestEnd: 4102444800, OrigVesting: ov,
+				Coins: sdk.NewCoins(sdk.NewCoin(vh.Denom, sdkmath.NewIntFromBigInt(vh.Ether(12))))})
+			specials = append(specials, special{addr: at, desc: "vesting:continuous:funded=true"})
+		case 2: // permanent locked, unfunded
+			accts = append(accts, vh.GenAccount{Addr: at, Kind: "permanent", OrigVesting: sdk.NewCoins(sdk.NewCoin(vh.Denom, sdkmath.NewIntFromBigInt(vh.Ether(10))))})
+			specials = append(specials, special{addr: at, desc: "vesting:permanent:funded=false"})
+		default: // base account holding only a second denomination
+			accts = append(accts, vh.GenAccount{Addr: at, Coins: sdk.NewCoins(sdk.NewCoin(vh.SecondDenom, sdkmath.NewInt(int64(5+n))))})
+			specials = append(specials, special{addr: at, desc: "base:second-denom-only"})
+		}
+	}
 	// base accounts holding only a second denomination (zero evm-denom balance, nonce 0)
 	for i := 0; i < 3; i++ {
 		a := vh.NewAcct(r)
@@ -210,6 +234,12 @@ func world(run *vh.Run, label string, wi, nBlocks int) {
 	}
 	for b := 0; b < nBlocks; b++ {
 		var plans []*vh.TxPlan
+		if b%5 == 3 && w.C.Nonce(creator.Addr) < 8 {
+			// creation transaction whose target address is occupied by a special account
+			code := vh.Deployer(vh.NewAsm().SStore(1, 1).Op(vm.STOP).Bytes())
+			plans = append(plans, tag(w.PlanEth(creator, nil, big.NewInt(int64(r.Intn(2)*1000)), 400000, code, "ok", nil), "create-at-special"))
+			run.Count("creations_targeting_the_address_of_a_special_account", 1)
+		}
 		n := r.Range(1, 6)
 		for i := 0; i < n; i++ {
 			s := vh.Pick(r, w.EOAs)
